@@ -277,7 +277,7 @@ fn finish(rng: &mut Rng, mut st: Start) -> Option<Start> {
     Some(st)
 }
 
-pub const N_SCEN: usize = 19;
+pub const N_SCEN: usize = 20;
 pub const SCEN_NAMES: [&str; N_SCEN] = [
     "ep_rank_exposure",
     "ep_after_interposing_push",
@@ -298,6 +298,7 @@ pub const SCEN_NAMES: [&str; N_SCEN] = [
     "castle_with_ep_pending",
     "stalemate_factory",
     "only_move_is_ep",
+    "ep_interposes_check",
 ];
 
 /// Try to produce an instance of scenario `id`; None if this draw did not validate.
@@ -1014,6 +1015,63 @@ pub fn scenario(rng: &mut Rng, id: usize) -> Option<Start> {
             }
             finish(rng, Start { pos: q, prelude: vec![push], tag })
         }
+        19 => {
+            // set up directly (not reachable by play): White is in check by a slider whose line runs over
+            // the en-passant target square, so the capture would interpose; or in check by a knight /
+            // another pawn, where the capture does not help
+            let x = rng.range(0, 7) as i8;
+            let wf = x + *rng.pick(&[-1i8, 1]);
+            if wf < 0 || wf > 7 {
+                return None;
+            }
+            p.sq[sqm(x, 4) as usize] = pc(P, BLACK);
+            p.sq[sqm(wf, 4) as usize] = pc(P, WHITE);
+            let target = sqm(x, 5);
+            let mut reserved = bit(target) | bit(sqm(x, 6)) | bit(sqm(x, 4)) | bit(sqm(wf, 4));
+            match rng.below(3) {
+                0 | 1 => {
+                    let d = *rng.pick(&[(1i8, 0i8), (-1, 0), (1, 1), (-1, 1), (1, -1), (-1, -1)]);
+                    let k = mk(x - d.0 * rng.range(1, 3) as i8, 5 - d.1 * rng.range(1, 3) as i8)?;
+                    let s = mk(x + d.0 * rng.range(1, 3) as i8, 5 + d.1 * rng.range(1, 3) as i8)?;
+                    // both must really be on the line through the target
+                    let (kf, kr) = fr(k);
+                    let (sf, sr) = fr(s);
+                    let on = |f: i8, r: i8| (f - x) * d.1 == (r - 5) * d.0 && (f, r) != (x, 5);
+                    if !on(kf, kr) || !on(sf, sr) || p.sq[k as usize] != 0 || p.sq[s as usize] != 0 {
+                        return None;
+                    }
+                    let diag = d.0 != 0 && d.1 != 0;
+                    p.sq[k as usize] = pc(K, WHITE);
+                    p.sq[s as usize] = pc(if diag { *rng.pick(&[B, Q]) } else { *rng.pick(&[R, Q]) }, BLACK);
+                    reserved |= ray_set(k, d) | bit(k);
+                }
+                _ => {
+                    if !place_king_somewhere(rng, &mut p, WHITE, reserved) {
+                        return None;
+                    }
+                    let k = p.king_sq(WHITE)?;
+                    let (kf, kr) = fr(k);
+                    let dj = *rng.pick(&KN);
+                    let s = mk(kf + dj.0, kr + dj.1)?;
+                    if p.sq[s as usize] != 0 || reserved & bit(s) != 0 {
+                        return None;
+                    }
+                    p.sq[s as usize] = pc(N, BLACK);
+                    reserved |= bit(k) | bit(s);
+                }
+            }
+            if !place_king_somewhere(rng, &mut p, BLACK, reserved) {
+                return None;
+            }
+            reserved |= bit(p.king_sq(BLACK)?);
+            add_noise(rng, &mut p, reserved, 6);
+            p.stm = WHITE;
+            p.ep = Some(target);
+            if p.checkers().count_ones() != 1 {
+                return None;
+            }
+            finish(rng, Start::plain(p, tag))
+        }
         _ => None,
     }
 }
@@ -1160,8 +1218,12 @@ pub fn synth_ep_invented(rng: &mut Rng) -> Option<Start> {
         pred.stm = mover;
         pred.sq[sqm(f, r4) as usize] = 0;
         pred.sq[sqm(f, r2) as usize] = pc(P, mover);
-        if p.valid() && pred.valid() {
-            return Some(Start::plain(p, "synth_ep_invented"));
+        // Literal reading of the quantifier ("en-passant state only directly after a double pawn push;
+        // set up directly (FEN / builder)"): the listed conditions hold for `p`; whether the position
+        // *before* the push was legal is not among them.  Half of the instances keep a valid predecessor,
+        // the other half do not require it (the side to move may then be in check by any piece).
+        if p.valid() && (pred.valid() || rng.chance(1, 2)) {
+            return Some(Start::plain(p, if pred.valid() { "synth_ep_invented" } else { "synth_ep_invented_unreachable" }));
         }
     }
     None
